@@ -17,17 +17,19 @@ theorem C07_contained_address_found (mods : List Module) (h : NonOverlap mods) (
       else if a - m.baseAvma < U32 then some (j, a - m.baseAvma) else none :=
   findModule_complete mods h a j m hm hc
 
-/-- Whatever is returned is a registered module that contains the address. -/
-theorem C07_found_module_contains (mods : List Module) (h : NonOverlap mods) (a j rel : Nat)
+/-- Whatever is returned is a registered module that contains the address (any module list). -/
+theorem C07_found_module_contains (mods : List Module) (a j rel : Nat)
     (hf : findModule mods a = some (j, rel)) :
     ∃ m, mods[j]? = some m ∧ m.contains a ∧ rel = a - m.baseAvma :=
-  let ⟨m, h1, h2, _, h4, _⟩ := findModule_sound mods h.2 a j rel hf
+  let ⟨m, h1, h2, _, h4, _⟩ := findModule_sound mods a j rel hf
   ⟨m, h1, h2, h4⟩
 
-/-- An address no registered module contains is unwound with no module's data. -/
-theorem C07_uncontained_address_unknown (mods : List Module) (h : NonOverlap mods) (a : Nat)
+/-- An address no registered module contains is unwound with no module's data - for any module
+list whatsoever (overlapping, empty ranges: since 2a4e12e a module with an empty range no longer
+claims its start address). -/
+theorem C07_uncontained_address_unknown (mods : List Module) (a : Nat)
     (hn : ∀ m ∈ mods, ¬ m.contains a) : findModule mods a = none :=
-  findModule_none mods h.2 a hn
+  findModule_none mods a hn
 
 /-- Adding a module that overlaps none of the registered ones keeps the structure and adds
 exactly that module. -/
@@ -83,7 +85,7 @@ theorem C07_removed_range_unknown (mods : List Module) (h : NonOverlap mods) (j 
     (hm : mods[j]? = some m) (a : Nat) (hc : m.contains a) :
     findModule (mods.eraseIdx j) a = none := by
   have hno := (removeModule_present mods h j m hm).2
-  apply findModule_none _ hno.2
+  apply findModule_none _
   intro x hx hcx
   -- `x` is a module of the original list other than the one at index `j`
   have hjl : j < mods.length := (List.getElem?_eq_some_iff.mp hm).1
